@@ -280,7 +280,6 @@ Definition deviation_witnesses : list (string * list value) := [
   ("~R", [VInt 20001]);
   ("~:R", [VInt 100]);                                                (* ordinal of a round number *)
   ("~:R", [VInt 20]);
-  ("~R", [VInt 1000000000000000001]);                                 (* quantillion *)
   ("~R", [VInt 1000000000000000000000000000000000000000000000000000000000000000001]);   (* beyond the table *)
   ("~@R", [VInt 0]);                                                  (* Roman zero *)
   ("~D", [VStr (tx "abc")]);                                          (* non-integer printed with escapes *)
